@@ -101,6 +101,20 @@ fn main() {
         };
         let kinds = ["pk3", "pk6", "sk4", "sk6"];
         let made: Vec<(&str, Vec<u8>)> = kinds.iter().filter_map(|k| mk(k).map(|b| (*k, b))).collect();
+        // a GnuPG v5 SKESK (fixture, password "password") is never aligned with a SEIPD container
+        {
+            let skesk5 = unhx("c33d05070203089f0b7da3e5ea64779099e326e5400a90936cefb4e8eba08c6773716d1f2714540a38fcac529949dac529d3de31e15b4aeb729e330033dbed");
+            let gpw = Password::from("password");
+            for with in [vec![], vec!["sk4"], vec!["sk6"], vec!["pk3", "sk4"]] {
+                let mut esks: Vec<(&str, Vec<u8>, bool)> = vec![("sk5", skesk5.clone(), true)];
+                for w in &with { if let Some((k, b)) = made.iter().find(|(k, _)| k == w) { esks.push((*k, b.clone(), true)); } }
+                for (l, g) in [(false, false), (false, true), (true, true)] {
+                    cx.decrypt_case(cname, &container, &esks, &[&k4, &k6], &[&gpw, &pw], l, g, Some(&plain), &format!("esk-{cname}-with-skesk5"));
+                    let mut rev = esks.clone(); rev.reverse();
+                    cx.decrypt_case(cname, &container, &rev, &[&k4, &k6], &[&pw, &gpw], l, g, Some(&plain), &format!("esk-{cname}-with-skesk5"));
+                }
+            }
+        }
         // every subset, two orders; three credential sets
         for mask in 0u32..(1 << made.len()) {
             for rev in [false, true] {
@@ -295,6 +309,12 @@ fn main() {
             let pubr = guarded(|| SignedPublicKey::from_bytes(&pbytes[..]).map(|k| !k.public_subkeys.is_empty()).unwrap_or(false)).unwrap_or(false);
             cx.out.case("subkey", &[pv.to_string(), sv.to_string()], &["subkey-version".into(), "public".into(), hx(&pbytes)], &(pubr as u8).to_string(), None, "subkey-version-public-path");
             let _ = pubbytes;
+            // a transferable secret key may also carry public subkey packets: the same rule
+            let mixed = match (pv, sv) { (6, 4) => [head_of(&s6), psub(&q4)].concat(), (4, 6) => [head_of(&s4), psub(&q6)].concat(), (4, 4) => [head_of(&s4), psub(&q4)].concat(), _ => [head_of(&s6), psub(&q6)].concat() };
+            let mixr = guarded(|| SignedSecretKey::from_bytes(&mixed[..]).map(|k| !k.public_subkeys.is_empty() || !k.secret_subkeys.is_empty()).unwrap_or(false)).unwrap_or(false);
+            cx.out.case("subkey", &[pv.to_string(), sv.to_string()], &["subkey-version".into(), "secret-with-public-subkey".into(), hx(&mixed)], &(mixr as u8).to_string(), None, "subkey-version-mixed-path");
+            let many = guarded(|| { let mut any = false; for k in pgp::composed::PublicOrSecret::from_bytes_many(&mixed[..]).ok()?.flatten() { any |= match k { pgp::composed::PublicOrSecret::Secret(k) => !k.public_subkeys.is_empty() || !k.secret_subkeys.is_empty(), pgp::composed::PublicOrSecret::Public(k) => !k.public_subkeys.is_empty() }; } Some(any) }).ok().flatten().unwrap_or(false);
+            cx.out.case("subkey", &[pv.to_string(), sv.to_string()], &["subkey-version".into(), "public-or-secret".into(), hx(&mixed)], &(many as u8).to_string(), None, "subkey-version-mixed-path");
         }
         // signing-capable subkey: binding with a valid back-signature, without one, with one made by another key
         use pgp::composed::SubkeyParamsBuilder;
